@@ -684,9 +684,11 @@ def judge(case, obs):
     if fam == "single":
         tag = case["op"][0] + "@" + point_name(obs, case["fault"]) + ("+foreign" if case["foreign"] else "")
         failed_call(tag, obs, obs["env"])
-        if obs["outcome"] in ("fail", "cancel", "refused") and obs["later"] != "ok":
+        # also when the injected fault was swallowed by the call (it reports ok): a step of it
+        # failed / was cancelled, and a later stream must still start normally
+        if (obs["outcome"] in ("fail", "cancel", "refused") or case["fault"]) and obs["later"] != "ok":
             bad.append((f"{tag}:later-stream:{obs['outcome']}",
-                        f"after a {obs['outcome']} call a new stream_file ends with {obs['later']}"))
+                        f"after a {obs['outcome']} call (fault {case['fault']}) a new stream_file ends with {obs['later']}"))
     elif fam == "overlap":
         if not obs["reached"]:
             return bad
